@@ -88,6 +88,8 @@ for vf in sorted(glob.glob(VERIFIED + '/*/*/verify.json')):
         'detected': bool(new),
         'first_result_and_follow_up': FIRST.get(sid, 'see DESIGN.md'),
     }
+    if os.path.exists(os.path.join(dst, 'patch.orig-3ac75df.diff')):
+        meta['rebased'] = 'patch.diff was rebased onto /repo 56a2d56 (fix: location-independent component names), which rewrote lines it touches; the agent\'s original patch against 3ac75df is patch.orig-3ac75df.diff. Same change in substance; re-confirmed independently on the new HEAD (builds, 90 tests pass, demonstration fails with / passes without).'
     json.dump(meta, open(os.path.join(dst, 'meta.json'), 'w'), indent=1)
     extra.append({'id': 'seeded-' + sid, 'kind': 'mutant', 'properties': sorted(new), 'what': (am.get('summary') or '')[:200],
                   'patch': 'seeded/%s/patch.diff' % sid, 'origin': ORIGIN})
